@@ -1,11 +1,11 @@
-import OvniModel.Lemmas.FsGlobal
-import OvniModel.Lemmas.FsWitness
+import OvniModel.Lemmas.FsSpec
 import OvniModel.Lemmas.FsBuffer
 
 /-!
 # C09 — crash consistency
 
-Model: `OvniModel/Rt/Fs.lean`.  The process is killed when `k` of the libc
+Model: `OvniModel/Rt/Fs.lean`; statement definitions (`crashState`, `CrashConsistent`,
+`FinishedAfterData`, `WellFormed`, `ReaddirOrder`, `ObsFirst`): `OvniModel/Rt/FsSpec.lean`.  The process is killed when `k` of the libc
 calls of the run have completed (`crashState`); what a reader then finds in a
 file is its on-disk bytes plus *any* prefix of the bytes still in the stdio
 buffer (`Fs.visible … cut`).  `accepts` is (a superset of) what `ovniemu`
@@ -24,86 +24,6 @@ has the header, tiles into events and leaves the thread dead.
 -/
 namespace Ovni.Props.C09
 open Ovni.Rt Ovni.Rt.Fs
-
-/-- The file system when the process is killed after `k` completed calls. -/
-def crashState (C : Codec) (p : Prog) (k : Nat) : Fs := run p.init (ops ((calls C.ser p).take k))
-
-/-- Threads have distinct tids. -/
-def WellFormed (p : Prog) : Prop := (p.threads.map (·.tid)).Nodup
-
-/-- readdir returns the entries of a thread directory in some order. -/
-def ReaddirOrder (p : Prog) : Prop := p.order.Perm [.dot, .dotdot, .f .obs, .f .json]
-
-/-- … and stream.obs comes before stream.json. -/
-def ObsFirst (p : Prog) : Prop := streamEntries p.order = [.obs, .json]
-
-/-- Accepted by the emulator ⇒ every visible stream contains (is exactly) what
-    its thread had flushed when the process was killed. -/
-def CrashConsistent (E : EmuCfg) (C : Codec) (p : Prog) : Prop :=
-  ∀ (k : Nat) (cut : Path → Nat) (r : Root),
-    accepts E C (crashState C p k) cut r = true →
-    ∀ tid ∈ visibleStreams (crashState C p k) r,
-      (crashState C p k).visible cut (.file r tid .obs) = some ((crashState C p k).flushed tid)
-
-/-- finished = 1 visible in the final tree ⇒ the final stream.obs holds every
-    byte the thread flushes in its whole life. -/
-def FinishedAfterData (C : Codec) (p : Prog) : Prop :=
-  ∀ (k : Nat) (cut : Path → Nat), ∀ t ∈ p.threads, ∀ j,
-    (crashState C p k).visible cut (.file .fin t.tid .json) = some j → jsonFinished C j = true →
-    (crashState C p k).visible cut (.file .fin t.tid .obs) = some t.obsBytes
-
-/-! ### lemmas local to the statement -/
-
-theorem get_isSome_of_mem (fs : Fs) (q : Path) (n : Node) (h : (q, n) ∈ fs) : (fs.get q).isSome = true := by
-  induction fs with
-  | nil => cases h
-  | cons e es ih =>
-    obtain ⟨q', n'⟩ := e
-    simp only [Fs.get]
-    by_cases hq : q' = q
-    · simp [hq]
-    · rw [if_neg hq]
-      simp only [List.mem_cons, Prod.mk.injEq] at h
-      rcases h with ⟨h1, _⟩ | h
-      · exact absurd h1.symm hq
-      · exact ih h
-
-theorem isSome_of_visibleStream (fs : Fs) (r : Root) (tid : Nat) (h : tid ∈ visibleStreams fs r) :
-    (fs.get (.file r tid .json)).isSome = true := by
-  simp only [visibleStreams, List.mem_filterMap] at h
-  obtain ⟨⟨q, n⟩, hmem, heq⟩ := h
-  split at heq
-  · rename_i r' t' d pn hpair
-    split at heq
-    · rename_i hr
-      simp only [Option.some.injEq] at heq
-      simp only [Prod.mk.injEq] at hpair
-      obtain ⟨rfl, rfl⟩ := hpair
-      subst hr; subst heq
-      exact get_isSome_of_mem fs _ _ hmem
-    · cases heq
-  · cases heq
-
-/-- Every prefix of the run leaves every thread's entries in a state
-    satisfying the thread invariant. -/
-theorem tinv_at_crash (C : Codec) (p : Prog) (hwf : WellFormed p) (hm : p.tmpMode = false ∨ ObsFirst p)
-    (t : ThreadProg) (ht : t ∈ p.threads) (k : Nat) : TInv C t (viewOf (crashState C p k) t.tid) := by
-  obtain ⟨k', hk'⟩ := view_at_crash C.ser p t ht hwf k
-  unfold crashState
-  rw [hk']
-  cases hp : p.tmpMode with
-  | false => exact (thread_direct C p t hp _ rfl).1 k'
-  | true =>
-    rcases hm with hm | hm
-    · rw [hp] at hm; cases hm
-    · exact (thread_tmp_obs_first C p t hp hm _ rfl).1 k'
-
-theorem visible_of_view (s : Fs) (cut : Path → Nat) (r : Root) (tid : Nat) :
-    s.visible cut (.file r tid .obs) =
-      match (viewOf s tid).o r with
-      | some (.file d pn) => some (d ++ pn.take (cut (.file r tid .obs)))
-      | _ => none := by
-  cases r <;> simp only [Fs.visible, viewOf, View.o] <;> split <;> simp_all
 
 /-! ### C09 -/
 
